@@ -303,3 +303,23 @@ contract(
     modifies=K._SS_MOD + ["TaskScenario.currentSlotIdx@self", "TaskScenario.slotStartOffset@self", "TaskScenario.isRunAway@self",
                           "TaskScenario.scheduled@self", "@scheduled@self.property"],
 )
+
+# ---- readiness (forward): a task is taken only when every predecessor - own or inherited - has been placed ---------------
+_SCHED_DEP = "implies(DepTask({d}) is not None, Sched(some(DepTask({d})), self.scenarioIdx))"
+contract(
+    TS + "::TaskScenario._asapReadyForScheduling", props=["C04", "C07"],
+    params={"self": Ref("TaskScenario")}, ret=Bool,
+    assumes=L.anc_axioms("self.property"),
+    ensures=[
+        ("own-placed", "implies(result, forall(k, 0, NDeps(self.property, self.scenarioIdx), "
+                       + _SCHED_DEP.format(d="some(Deps(self.property, self.scenarioIdx))[k]") + "))"),
+        ("inherited-placed", "implies(result, forall(j, implies(j >= 0 and anc(self.property, j) is not None, "
+                             "forall(k, 0, NDeps(some(anc(self.property, j)), self.scenarioIdx), "
+                             + _SCHED_DEP.format(d="some(Deps(some(anc(self.property, j)), self.scenarioIdx))[k]") + "))))"),
+    ],
+    calls={"self.getAllDependencies": ("contract", TS + "::TaskScenario.getAllDependencies")},
+    static={"hasattr(dep, 'task')": False},
+    loops={0: {"inv": [("seen", "forall(k, 0, _i, " + _SCHED_DEP.format(d="_iter[k]") + ")")],
+               "locals": {"t": Opt(Ref("Task"))}}},
+    modifies=[],
+)
